@@ -26,7 +26,7 @@ RULE = (
 )
 CLASSES = [
     "ambiguous_prefix_len1", "ambiguous_prefix_len2", "ambiguous_prefix_len3+", "unique_prefix", "reinit",
-    "mutated_after_open", "fresh_process", "uninitialised_lookup", "typed_values", "lost_spfile_reinit", "symlinked_job_dir",
+    "mutated_after_open", "fresh_process", "uninitialised_lookup", "typed_values", "lost_spfile_reinit", "symlinked_job_dir", "relative_project_path_then_chdir", "bulk_workspace",
 ]
 ASSUMPTIONS = [
     "'unknown id raises KeyError' is asserted only in a fresh project without a persistent cache file",
@@ -76,7 +76,7 @@ def job_sets(draw):
     return sps[:12] or [{"k": 0}]
 
 
-OPS = ["open", "access_sp", "mutate_caller", "init", "init", "reinit", "fresh", "lookup_uninit", "lost_spfile_reinit", "relocate_symlink"]
+OPS = ["open", "access_sp", "mutate_caller", "init", "init", "reinit", "fresh", "fresh_rel", "lookup_uninit", "lost_spfile_reinit", "relocate_symlink"]
 
 
 @st.composite
@@ -104,6 +104,20 @@ def _mutate(d):
 
 
 def run_case(case, ctx):
+    if case.get("kind") == "bulk":
+        # thousands of jobs, cache written in one session, looked up by id in the next (C01's bulk history serves here too)
+        from checks import c01_jobid
+
+        r = c01_jobid.run_case({"kind": "bulk_cache", "n": int(case.get("n", 2003))}, ctx)
+        return {"mismatches": r["mismatches"], "classes": ["bulk_workspace"], "nontrivial": True}
+    cwd0 = os.getcwd()
+    try:
+        return _run_case(case, ctx)
+    finally:
+        os.chdir(cwd0)
+
+
+def _run_case(case, ctx):
     import signac
 
     mms, cl = [], set()
@@ -249,6 +263,13 @@ def run_case(case, ctx):
         elif name == "fresh":
             project = signac.Project(root)
             handles.clear()
+        elif name == "fresh_rel":
+            # a new session that names the project by a relative path and then works from another directory
+            os.chdir(os.path.dirname(root))
+            project = signac.Project(os.path.basename(root))
+            os.chdir(os.path.join(root, "workspace") if op.get("i", 0) % 2 else "/")
+            handles.clear()
+            cl.add("relative_project_path_then_chdir")
 
     # ---- final verification through a fresh session ---------------------------
     fresh = signac.Project(root)
@@ -350,5 +371,9 @@ def run(ctx):
         ctx.apply({"sps": [{"k": 1}, {"k": 2}, {"k": 3}], "ops": [{"op": "init", "i": 0}, {"op": "init", "i": 1}, {"op": "relocate_symlink", "i": 0}, {"op": "lost_spfile_reinit", "i": 1}, {"op": "reinit", "i": 0}, {"op": "fresh", "i": 0}], "final_init": True})
         ctx.apply({"sps": [{}, {"k": 1}], "ops": [{"op": "open", "i": 0}, {"op": "access_sp", "i": 1}, {"op": "lookup_uninit", "i": 1}, {"op": "init", "i": 0}, {"op": "fresh", "i": 0}, {"op": "access_sp", "i": 0}], "final_init": False})
         ctx.apply({"sps": [{"a": 1.0, "b": [True, None, {"c": "é"}]}, {"a": 1}, {"a": True}, {}], "ops": [{"op": "init", "i": 0}, {"op": "init", "i": 1}, {"op": "init", "i": 2}, {"op": "init", "i": 3}, {"op": "reinit", "i": 0}], "final_init": False})
+        ctx.apply({"sps": [{"k": 1}, {"k": 2, "n": {"x": [1]}}, {"k": 3}], "ops": [{"op": "init", "i": 0}, {"op": "fresh_rel", "i": 0}, {"op": "init", "i": 1}, {"op": "access_sp", "i": 1}, {"op": "fresh_rel", "i": 1}, {"op": "init", "i": 2}, {"op": "reinit", "i": 0}], "final_init": False})
+    for i, n in enumerate([2003] if ctx.tier == "quick" else [1999, 2003, 3001]):
+        if (i + 1) % ctx.nworkers == ctx.worker:
+            ctx.apply({"kind": "bulk", "n": n})
     drive(ctx, cases(), 400 if ctx.tier == "quick" else 1500, ctx.apply)
     drive(ctx, cases().map(lambda c: dict(c, xproc=True)), 2 if ctx.tier == "quick" else 12, ctx.apply)
